@@ -141,10 +141,12 @@ def helper_each(mode, payload, texts, timeout=20):
         return out
 
 
-def native_dump(texts):
+def native_dump(texts, via_file=False):
+    """parse snapshots from the real lexer/parser; via_file: the text is read back through the repository's own file reader
+    (parser.NewPacketDslParserByFile), the way the CLI gets it"""
     out = []
     for i in range(0, len(texts), 200):
-        out.extend(helper_each('dump', {}, texts[i:i + 200]))
+        out.extend(helper_each('dump', {'via_file': True} if via_file else {}, texts[i:i + 200]))
     return out
 
 
